@@ -9,31 +9,38 @@ import STProofs.SepticUnique
 import STProofs.CubicEnergyGrad
 import STProofs.QuinticEnergyGrad
 import STProofs.SepticEnergyGrad
+import STProofs.NDAdjoint
+import STProofs.NDEnergy
+import STProofs.EvalCore
+import STProofs.EvaluateGrad
+import STProofs.MapsInst
 /-!
 # C07 — optimizer gradient = gradient of the returned cost
 
-`evaluate` is a composition  x ↦ (durations, waypoints, boundary states) ↦ spline coefficients ↦ cost terms; its gradient
-is assembled by the matching chain of pull-backs.  Every link is a theorem, for every N / order / dimension / number of
-quadrature steps:
+**Headline theorem** `EvaluateGrad.evaluate_grad_exact` (user-facing form `MapsInst.evaluate_grad_exact_lift`): run the
+model's `evaluate` over dual numbers on `x + ε·dx`; the dual part of the returned cost equals `⟨grad, dx⟩` with `grad` the
+gradient the real run of `evaluate` returns.  One statement for every order, N ≥ 1, dimension, flag set (all 256), energy
+weight (zero and positive), quadrature step count, every time map / spatial map pair whose `backward` / `backwardGrad`
+are the transposed derivatives of `toTime` / `toPhysical` (`TmOK`, `SmOK`; proved for the identity, `QuadInv` and affine
+time maps and for the identity and the reduced-coordinate paraboloid spatial maps), and every time / waypoint / running
+cost functor following the documented protocol (`CostsOK`: the reported gradients are the partial derivatives, explicit
+time dependence through global time).  Only hypotheses besides the protocol: the decoded durations are positive, the
+decision vector has the layout's length, there are N+1 reference waypoints.
 
-* decision vector → durations: `backward_is_chain_rule` (default time map), `identity_map`;
-* decision vector → waypoints / boundary blocks: `layout_spec`, `derivBlocks_spec` (which slice feeds which quantity);
-* (durations, waypoints, boundary states) → coefficients: the adjoint theorems of C05
-  (`cubic_adjoint`, `quintic_adjoint_pos`, `septic_adjoint_pos`);
-* coefficients, durations, start time → integral cost: **`QuadDual.integral_cost_dual`** — for every running-cost functor
-  following the documented protocol (`RunOK`), the derivative of the total trapezoid cost along any tangent equals the
-  pairing with the accumulators `gdC`, `gdT ⊕ suffixAdd expl` (and `Σ expl` for the start time) that `evaluate` hands to
-  `propagateGrad` (`quadStep_dual`, `quadSegment_dual`, `starts_du`, `intAcc_eq_range`);
-* energy term: the analytic energy gradients are the total derivatives (C06: `*_energy_grad_exact`);
-* decision vector ↔ decoded quantities: **`Assemble.assemble_adjoint`** — gradient assembly (`backward` of the time map,
-  `backwardGrad` of the spatial map, scatter into the packed layout slices) is the adjoint of decoding, for every N, order,
-  dimension, flag set and all maps whose `backward`/`backwardGrad` are the transposed derivatives of `toTime`/`toPhysical`
-  (`MapsOK`).
+`evaluate = decode ; evalCore ; assemble` and the theorem is the composition of
 
-NOT proved as one statement: the composition of these links for the D-dimensional `evaluate` (it additionally needs the
-column stacking of the 1-D adjoint theorems, C13, written as one dual-number identity).  That composition is decided
-on every run by the exact dual-number oracle: the model's gradient equals the dual part of the model's cost on every
-generated case as an exact rational identity, and the C++ agrees within tolerance.
+* `Assemble.assemble_adjoint` — gradient assembly (`backward`, `backwardGrad`, scatter into the packed layout slices) is
+  the adjoint of decoding; un-optimised points and un-flagged (or order-gated) boundary blocks are pinned to the
+  constant reference data (`decode_pinned_wp`, `decode_pinned_blk`), so they carry no tangent;
+* `EvalCore.evalCore_dual` — the gradient record w.r.t. (waypoints, durations, boundary states) is the derivative of the
+  cost: time cost (protocol), integral cost (`QuadDual.integral_cost_dual`: basis rows, trapezoid weights, `dt/dT` term,
+  drift term, explicit-time term and its suffix accumulation), D-dimensional adjoint propagation
+  (`NDAdj.propagateND_adjoint` = Σ over coordinates of the C05 theorems), waypoint cost (protocol), energy term
+  (`NDEnergy.energyND_grad` = Σ over coordinates of the C06 theorems, order-gated boundary blocks: `energyGrad_gate`);
+* `EvalCore.coeffs_re`, `EvaluateGrad.decode_re` — the real parts of the dual run are the real run.
+
+The reciprocal time map of the harness (`T = b/(1 − aτ)`) has a pole, so it does not satisfy the all-`τ` form of `TmOK`;
+it is covered by the exact dual-number oracle of the check only.
 -/
 open ST
 
@@ -62,3 +69,83 @@ example : QuadDual.RunOK (K := ℚ) 1
       simp only [z]; ring
   · intro t tg i p v a j s hp _ _ _ _
     simp [vscale, vzero, hp]
+
+/-! ### non-vacuity of the whole hypothesis set: a concrete problem with all three cost functors -/
+section nonvacuous
+open QuadDual NDAdj EvalCore EvaluateGrad MapsInst
+
+/-- time cost `Σ T`, waypoint cost `Σ |q|²`, running cost `|p|² + t_global²` -/
+def exCosts (α : Type) [Num α] : Costs α :=
+  { time := fun Ts => (ST.sum Ts, Ts.map (fun _ => lit 1)),
+    waypoints := some (fun W => (ST.sum (W.map (fun q => dot q q)), W.map (vscale (lit 2)))),
+    run := fun _ tg _ p _ _ _ _ => ⟨dot p p + tg * tg, vscale (lit 2) p, vzero p.length, vzero p.length, vzero p.length,
+      vzero p.length, lit 2 * tg⟩ }
+
+theorem dot_self_re (x y : Vec (Dual ℚ)) : (dot x y).re = dot (vre x) (vre y) := by
+  induction x generalizing y with
+  | nil => simp [dot, vre, lit_eq]
+  | cons a x ih => cases y with
+    | nil => simp [dot, vre, lit_eq]
+    | cons b y => simp only [dot, vre, List.map_cons, Dual.add_re, Dual.mul_re] at ih ⊢; rw [ih]
+
+theorem dot_self_du (x : Vec (Dual ℚ)) : (dot x x).du = dot (vscale 2 (vre x)) (vdu x) := by
+  induction x with
+  | nil => simp [dot, vre, vdu, vscale, lit_eq]
+  | cons a x ih =>
+    simp only [dot, vre, vdu, vscale, List.map_cons, Dual.add_du, Dual.mul_du] at ih ⊢
+    rw [ih]; ring
+
+theorem exCosts_ok (n d : Nat) (dc : Decoded (Dual ℚ)) (hT : dc.times.length = n) (hW : dc.waypoints.length = n + 1)
+    (hrows : ∀ r ∈ dc.waypoints, r.length = d) : CostsOK n d (exCosts (Dual ℚ)) (exCosts ℚ) dc := by
+  constructor
+  · constructor
+    · intro t tg i p v a j s
+      refine ⟨?_, ?_⟩
+      · simp only [exCosts, Dual.add_re, Dual.mul_re, dot_self_re]
+      · simp only [exCosts, Dual.add_du, Dual.mul_du, dot_self_du, lit_eq]
+        have z : ∀ (m : Nat) (y : Vec ℚ), dot (vzero m : Vec ℚ) y = 0 := fun m y => QuadDual.dot_vzero_left m y
+        simp only [z]; push_cast; ring
+    · intro t tg i p v a j s hp _ _ _ _
+      simp [exCosts, vscale, vzero, hp]
+  · simp only [exCosts]
+    rw [NDEnergy.sum_du]
+    generalize dc.times = Ts
+    induction Ts with
+    | nil => simp [dot]
+    | cons T Ts ih => simp only [List.map_cons, List.sum_cons, dot_cons, ih, lit_eq]; push_cast; ring
+  · simp [exCosts, hT]
+  · simp only [exCosts]
+    refine ⟨?_, by simp [hW], ?_⟩
+    · rw [NDEnergy.sum_du, List.map_map]
+      generalize dc.waypoints = W
+      induction W with
+      | nil => simp [blockDot]
+      | cons q W ih =>
+        simp only [List.map_cons, List.sum_cons, blockDot, ih, Function.comp, dot_self_du, lit_eq]
+        push_cast; ring
+    · intro r hr
+      simp only [List.mem_map] at hr
+      obtain ⟨q, hq, rfl⟩ := hr
+      obtain ⟨q0, hq0, rfl⟩ := hq
+      simp [vscale, vre, hrows q0 hq0]
+
+/-- quintic, 2-D, two segments, default maps, end position and start velocity optimised, ρ = 1/2, 4 quadrature steps -/
+noncomputable def exCfg : Config ℚ :=
+  { order := .quintic, dim := 2, refTimes := [1, 2], refWaypoints := [[0, 0], [1, 2], [3, 1]],
+    refBC := BC.zero 2, startTime := 1, flags := { endP := true, startV := true }, rho := 1 / 2, steps := 4,
+    tm := quadInvTimeMap id, sm := identitySpatialMap 2 }
+
+/-- every hypothesis of the headline theorem is met by this problem at every decision vector of the right length whose
+decoded waypoint rows have the right length -/
+example (x : List (Dual ℚ)) (hx : x.length = exCfg.layout.total)
+    (hrows : ∀ r ∈ (decode (liftCfg exCfg (quadInvTimeMap id) (identitySpatialMap 2)) x).waypoints, r.length = 2)
+    (hpos : ∀ h ∈ (decode exCfg (x.map Dual.re)).times, 0 < h) :
+    (evaluate (liftCfg exCfg (quadInvTimeMap id) (identitySpatialMap 2)) x (exCosts (Dual ℚ))).cost.du
+      = dot (evaluate exCfg (x.map Dual.re) (exCosts ℚ)).grad (x.map Dual.du) := by
+  apply evaluate_grad_exact_lift exCfg _ _ (tmOK_quadInv id id) (smOK_identity 2) x _ _ (by simp [exCfg, Config.n]) hx (by simp [exCfg, Config.n]) hpos
+  apply exCosts_ok _ _ _ _ _ hrows
+  · simp [decode, liftCfg, exCfg, Config.n]
+  · rw [decode_wps_length]; simp [liftCfg, exCfg, Config.n]
+
+end nonvacuous
+
